@@ -57,3 +57,50 @@ Print Assumptions C11_gen_null_right_columns.
 Print Assumptions C11_gen_rank_default_tolerance.
 Print Assumptions C11_det_zero_iff_singular.
 Print Assumptions C11_null_annihilated.
+
+From Coq Require Import Reals.
+From QV Require Import CRingR.
+From QVT Require Import EckartYoung Penrose SVUnique SVInvariance.
+Close Scope R_scope.
+(* rank is invariant under conjugate transposition and under unitary factors: the singular values are.  For A = U diag(s) V^H (orthonormal
+   columns, s non-negative and non-increasing), EVERY such factorisation of A^H, of P A (P^H P = I) and of A W^H (W^H W = I) has the value
+   vector s -- so the number of values above any threshold, which is what `rank` returns, is the same *)
+Theorem C11_values_invariant_under_conjugate_transpose m n r (U V U' V' : qmat RR) (s s' : nat -> R) :
+  meq r r (qmm m (qherm U) U) qmid -> meq r r (qmm n (qherm V) V) qmid ->
+  meq r r (qmm n (qherm U') U') qmid -> meq r r (qmm m (qherm V') V') qmid ->
+  (forall k, k < r -> (0 <= s k)%R) -> (forall k l, k <= l -> l < r -> (s l <= s k)%R) ->
+  (forall k, k < r -> (0 <= s' k)%R) -> (forall k l, k <= l -> l < r -> (s' l <= s' k)%R) ->
+  meq n m (qherm (@usv RR r U s V)) (@usv RR r U' s' V') -> forall k, k < r -> s k = s' k.
+Proof.
+  intros HU HV HU' HV' H0 Hm H0' Hm' E k Hk.
+  apply (singular_values_unique n m r V U U' V' s s' HV HU HU' HV' H0 Hm H0' Hm'); [|exact Hk].
+  rewrite <- (herm_has_same_values RR m n r U V s). exact E.
+Qed.
+Theorem C11_values_invariant_under_unitary_left p m n r (P U V U' V' : qmat RR) (s s' : nat -> R) :
+  meq m m (qmm p (qherm P) P) qmid ->
+  meq r r (qmm m (qherm U) U) qmid -> meq r r (qmm n (qherm V) V) qmid ->
+  meq r r (qmm p (qherm U') U') qmid -> meq r r (qmm n (qherm V') V') qmid ->
+  (forall k, k < r -> (0 <= s k)%R) -> (forall k l, k <= l -> l < r -> (s l <= s k)%R) ->
+  (forall k, k < r -> (0 <= s' k)%R) -> (forall k l, k <= l -> l < r -> (s' l <= s' k)%R) ->
+  meq p n (qmm m P (@usv RR r U s V)) (@usv RR r U' s' V') -> forall k, k < r -> s k = s' k.
+Proof.
+  intros HP HU HV HU' HV' H0 Hm H0' Hm' E k Hk.
+  destruct (left_factor_keeps_values RR p m n r P U V s HP HU) as [F O].
+  apply (singular_values_unique p n r (qmm m P U) V U' V' s s' O HV HU' HV' H0 Hm H0' Hm'); [|exact Hk].
+  rewrite <- F. exact E.
+Qed.
+Section Indep.
+Variable C : CRing.
+Notation qmat := (qmat C).
+(* "linearly independent columns": the null-space basis is a block of columns rank .. dim-1 of V (resp. U), whose columns are orthonormal, so
+   N c = 0 forces c = 0 *)
+Theorem C11_null_basis_columns_are_independent n r k0 d (V c : qmat) : k0 + d <= r ->
+  meq r r (qmm n (qherm V) V) qmid ->
+  meq n 1 (qmm d (fun i j => V i (k0 + j)) c) (fun _ _ => qzero) -> meq d 1 c (fun _ _ => qzero).
+Proof.
+  intros Hd HV Hc.
+  exact (orthonormal_columns_are_independent C n d _ c (column_block_is_orthonormal C n r k0 d V Hd HV) Hc).
+Qed.
+End Indep.
+Print Assumptions C11_values_invariant_under_conjugate_transpose.
+Print Assumptions C11_null_basis_columns_are_independent.
